@@ -305,7 +305,7 @@ Proof.
 Qed.
 
 (* ================================================================ C12 *)
-Definition elem_ty (t : pty) : fty := match t with PSingle t | PArray _ _ t | PMap t => t end.
+Definition elem_ty (t : pty) : fty := match t with PSingle t | PArray _ _ t | PMap _ t => t end.
 
 (* admissible declaration: the referenced enum is well-formed (its value names
    are pairwise different, as protobuf requires). Nothing is asked of the rules:
@@ -457,7 +457,7 @@ Proof.
   destruct d as [name req opt ty desc]. cbn [p_name p_req p_opt p_ty p_desc] in *.
   unfold write_prop in Hw. cbn [p_name p_req p_opt p_ty p_desc] in Hw.
   apply obind_ok in Hw as [w [Hwf0 Hw]].
-  destruct ty as [t|r sf t|t].
+  destruct ty as [t|r sf t|r t].
   - (* singular *)
     rename Hwf0 into Hwt.
     pose proof (write_field_primary env t w Hwt) as Hprim.
@@ -473,7 +473,7 @@ Proof.
     cbn [fo_val fo_pres fo_kind fo_rep fo_opt p_req p_opt p_ty]. fold required.
     rewrite Hmsg.
     unfold fvalue_typed in Hty. cbn [p_ty p_opt] in Hty.
-    destruct fv as [|v|vs]; [| |discriminate].
+    destruct fv as [|v|vs|kvs]; [| |discriminate|discriminate].
     + (* not populated: an optional or message-typed field *)
       rewrite Hty.
       destruct required eqn:Er.
@@ -512,7 +512,7 @@ Proof.
     set (required := req || is_primary (PArray r sf t)) in *.
     destruct (opt && required) eqn:Eor; [destruct required; discriminate|].
     unfold fvalue_typed in Hty. cbn [p_ty] in Hty.
-    destruct fv as [|v|vs]; try discriminate.
+    destruct fv as [|v|vs|kvs]; try discriminate.
     assert (Hitems : forallb (item_ok (defined_numbers env) wi) vs = forallb (ty_ok re_match env t) vs).
     { clear - Hty Hwf Hwt re_id62. induction vs as [|v r IH]; [reflexivity|].
       cbn [forallb] in *. apply andb_true_iff in Hty as [H1 H2].
@@ -546,8 +546,45 @@ Proof.
       * destruct required; cbn [set_required c_req c_ty andb negb];
           destruct vs as [|v0 vr]; cbn [negb andb];
           rewrite <- ?Hitems; cbn [forallb]; rewrite ?forallb_true; reflexivity.
-  - (* map: no value of a map field is in the domain *)
-    unfold fvalue_typed in Hty. cbn [p_ty] in Hty. destruct fv; discriminate.
+  - (* map *)
+    apply obind_ok in Hwf0 as [wi [Hwt Hwa]]. inversion Hwa; subst w; clear Hwa.
+    cbn [wrap_map fw_key fw_kind fw_val fw_ext fw_list] in Hw.
+    rewrite orb_false_r in Hw.
+    destruct (opt && req) eqn:Eor; [destruct req; discriminate|].
+    unfold fvalue_typed in Hty. cbn [p_ty] in Hty.
+    destruct fv as [|v|vs|kvs]; try discriminate.
+    assert (Hitems : forallb (fun kv => item_ok (defined_numbers env) wi (snd kv)) kvs
+                     = forallb (fun kv => ty_ok re_match env t (snd kv)) kvs).
+    { clear - Hty Hwf Hwt re_id62. induction kvs as [|kv r0 IH]; [reflexivity|].
+      cbn [forallb] in *. apply andb_true_iff in Hty as [H1 H2].
+      rewrite (scalar_sem env t wi (snd kv) Hwf Hwt H1). rewrite IH by exact H2. reflexivity. }
+    unfold item_ok in Hitems.
+    assert (Ho : fo_val o = (if req then set_required (fw_val (wrap_map r wi)) else fw_val (wrap_map r wi))
+                 /\ fo_pres o = false).
+    { destruct req; inversion Hw; cbn; auto. }
+    destruct Ho as [Hov Hop].
+    unfold validate_sem, rule_sem, got, populated, has_presence.
+    rewrite Hov, Hop. cbn [p_req p_ty].
+    cbn [wrap_map fw_val].
+    destruct (fw_val wi) as [c|] eqn:Ev; cbn [is_some orb].
+    + unfold only_ty.
+      destruct req; cbn [set_required c_req c_ty andb negb];
+        destruct kvs as [|kv0 kvr]; cbn [negb andb eval_tyc length];
+        destruct r as [r|]; cbn [opt_leN opt_geN andb];
+        try reflexivity;
+        destruct (c_ty c); rewrite <- ?Hitems; cbn [forallb];
+        rewrite ?forallb_true; cbn [andb]; rewrite ?andb_true_r; reflexivity.
+    + destruct r as [r|]; cbn [is_some].
+      * unfold only_ty.
+        destruct req; cbn [set_required c_req c_ty andb negb];
+          destruct kvs as [|kv0 kvr]; cbn [negb andb eval_tyc length];
+          cbn [opt_leN opt_geN andb];
+          try reflexivity;
+          rewrite <- ?Hitems; cbn [forallb];
+          rewrite ?forallb_true; cbn [andb]; rewrite ?andb_true_r; reflexivity.
+      * destruct req; cbn [set_required c_req c_ty andb negb];
+          destruct kvs as [|kv0 kvr]; cbn [negb andb];
+          rewrite <- ?Hitems; cbn [forallb]; rewrite ?forallb_true; reflexivity.
 Qed.
 
 End C12.
